@@ -77,14 +77,16 @@ theorem checkCrl_ne_panic (dec : Kind → Val → Bool) (d : Disk) (e : Option E
   cases e with
   | none => simp [chkOf, Store.checkFallthrough]
   | some e =>
-    obtain ⟨loaded, store⟩ := e
-    cases loaded
-    · simp [chkOf, Store.checkFallthrough]
-    · cases store with
-      | none => simp [chkOf, Store.checkOnStoreNil]
-      | some st =>
-        simp only [↓reduceIte]
-        cases st.lookup dec d i s <;> simp [chkOf, Store.checkOnLookupErr, Store.checkOnRevoked, Store.checkFallthrough]
+    obtain ⟨loaded, store, closed⟩ := e
+    cases closed
+    · cases loaded
+      · simp [chkOf, Store.checkFallthrough]
+      · cases store with
+        | none => simp [chkOf, Store.checkOnStoreNil]
+        | some st =>
+          simp only [Bool.false_and, Bool.false_eq_true, ↓reduceIte]
+          cases st.lookup dec d i s <;> simp [chkOf, Store.checkOnLookupErr, Store.checkOnRevoked, Store.checkFallthrough]
+    · simp [chkOf, Store.checkOnClosed]
 
 /-- `Repository.IsRevoked`: if any entry's check fails, the walk never ends in "not revoked", in whatever
 order the identifiers are enumerated (Go map order = any list order). -/
@@ -141,23 +143,119 @@ theorem fault_classes_reach_error (dec : Kind → Val → Bool) (d : Disk) (h : 
   · exact missing_dir_is_error dec d h hd i s
   · exact (undecodable_is_error dec i s v hv).2 d h hg
 
+/-- An entry closed by `Repository.Close` makes the lookup fail, whatever its store holds. -/
+theorem closed_entry_is_error (dec : Kind → Val → Bool) (d : Disk) (l : Bool) (st : Option AnyStore) (i : List UInt8) (s : Int) :
+    checkCrl dec d (some { loaded := l, store := st, closed := true }) i s = .error := by
+  simp [checkCrl, chkOf, Store.checkOnClosed]
+
+/-- `Repository.Close` never panics on a repository without nil entries (in particular not when called twice) ... -/
+theorem repoClose_total (d : Disk) : ∀ (es : List (Option Entry)), (∀ e ∈ es, e ≠ none) → ∃ r, repoClose d es = some r
+  | [], _ => ⟨_, rfl⟩
+  | none :: _, h => absurd rfl (h none List.mem_cons_self)
+  | some e :: rest, h => by
+    have hce : ∃ d1 e1, closeEntry d (some e) = some (d1, some e1) := by
+      unfold closeEntry
+      simp only [Store.closeIdempotent, Store.closeNilStoreGuard, Store.closeDropsEntry, Bool.true_and]
+      cases e.closed
+      · cases e.store with
+        | none => exact ⟨_, _, rfl⟩
+        | some st => exact ⟨_, _, rfl⟩
+      · exact ⟨_, _, rfl⟩
+    obtain ⟨d1, e1, h1⟩ := hce
+    obtain ⟨r, hr⟩ := repoClose_total d1 rest (fun e' he' => h e' (List.mem_cons_of_mem _ he'))
+    exact ⟨(r.1, some e1 :: r.2), by simp [repoClose, h1, hr]⟩
+
+/-- ... keeps every entry and marks it closed. -/
+theorem repoClose_marks (d : Disk) : ∀ (es : List (Option Entry)) (d' : Disk) (es' : List (Option Entry)),
+    repoClose d es = some (d', es') → es'.length = es.length ∧ ∀ e' ∈ es', ∃ e, e' = some e ∧ e.closed = true
+  | [], d', es', h => by
+    simp only [repoClose, Option.some.injEq, Prod.mk.injEq] at h
+    obtain ⟨_, rfl⟩ := h
+    exact ⟨rfl, by simp⟩
+  | e :: rest, d', es', h => by
+    simp only [repoClose] at h
+    cases hc : closeEntry d e with
+    | none => simp [hc] at h
+    | some p =>
+      obtain ⟨d1, e1⟩ := p
+      simp only [hc] at h
+      cases hr : repoClose d1 rest with
+      | none => simp [hr] at h
+      | some q =>
+        obtain ⟨d2, es2⟩ := q
+        simp only [hr, Option.some.injEq, Prod.mk.injEq] at h
+        obtain ⟨rfl, rfl⟩ := h
+        obtain ⟨hlen, hall⟩ := repoClose_marks d1 rest d2 es2 hr
+        refine ⟨by simp [hlen], ?_⟩
+        intro e' he'
+        rcases List.mem_cons.mp he' with rfl | he'
+        · -- the entry just closed
+          cases e with
+          | none => simp [closeEntry] at hc
+          | some e0 =>
+            unfold closeEntry at hc
+            simp only [Store.closeIdempotent, Store.closeNilStoreGuard, Store.closeDropsEntry, Store.closeMarksClosed,
+              Bool.true_and, Bool.or_true] at hc
+            cases hcl : e0.closed
+            · cases hst : e0.store with
+              | none =>
+                simp [hcl, hst] at hc
+                exact ⟨_, hc.2.symm, rfl⟩
+              | some st =>
+                simp [hcl, hst] at hc
+                exact ⟨_, hc.2.symm, rfl⟩
+            · simp [hcl] at hc
+              exact ⟨e0, hc.2.symm, hcl⟩
+        · exact hall e' he'
+
+/-- **Shutdown fails closed**: after `Repository.Close` a lookup in a repository that holds any CRL is an error,
+hence (CRL checking enabled) the handshake is rejected — never "not revoked". -/
+theorem lookup_after_repository_close_is_error (dec : Kind → Val → Bool) (d d' : Disk) (es es' : List (Option Entry))
+    (hc : repoClose d es = some (d', es')) (hne : es ≠ []) (gate : Bool) (i : List UInt8) (s : Int) :
+    isRevoked dec d' gate es' i s = .error := by
+  obtain ⟨hlen, hall⟩ := repoClose_marks d es d' es' hc
+  unfold isRevoked
+  cases gate
+  · cases es' with
+    | nil => cases es with
+      | nil => exact absurd rfl hne
+      | cons => simp at hlen
+    | cons e' rest =>
+      obtain ⟨e, rfl, hcl⟩ := hall e' List.mem_cons_self
+      obtain ⟨l, st, cl⟩ := e
+      simp only at hcl
+      subst hcl
+      simp [walk, closed_entry_is_error, chkOf, Store.walkOnErr]
+  · rfl
+
+theorem shutdown_rejects (dec : Kind → Val → Bool) (d d' : Disk) (es es' : List (Option Entry))
+    (hc : repoClose d es = some (d', es')) (hne : es ≠ []) (mode : Mode) (hm : crlEnabled mode = true)
+    (gate : Bool) (i : List UInt8) (s : Int) (o : MechOut) :
+    (isRevoked dec d' gate es' i s).mech = some .error ∧
+      (verifyProg.run mode (envOf o .error) true).verdict = .reject := by
+  rw [lookup_after_repository_close_is_error dec d d' es es' hc hne gate i s]
+  refine ⟨rfl, ?_⟩
+  rw [C03.verify_reject_iff]
+  right
+  exact ⟨by rw [← C03.crlEnabled_doc]; exact hm, by simp⟩
+
 /-!
-### Open items on the unchanged tree (full statement not provable)
+### Open item on the unchanged tree (full statement not provable)
 
 Full statement wanted by C09: *for every fault class of the quantifier — database closed by a concurrent shutdown, read
 error, undecodable record, store missing after a failed swap — a lookup of a listed certificate never yields "not
-revoked".* `store_failure_rejects` + `fault_classes_reach_error` + `nil_store_is_error` prove it for every fault that
-surfaces **at a loaded entry** (`fail_closed_partial` below). It is false for the two paths on which the repository
-drops the entry instead of failing the lookup: `Repository.Close` sets the map slot to nil (checkCrl then skips it),
-and `updateCrlEntry` deletes the entry after a failed swap. Both are replayed on the implementation on every run
-(harness signatures `C09 lookup-after-repository-close-reports-not-revoked`,
-`C09 failed-swap-drops-crl-lookup-reports-not-revoked`).
+revoked".* Proved for every fault that surfaces **at a repository entry** (`fail_closed_partial`: closed entry, nil
+store, faulty / closed / vanished database, undecodable record) and for shutdown (`shutdown_rejects`). It is false
+for the path on which the repository drops the entry instead of failing the lookup: `updateCrlEntry` deletes the entry
+after a failed directory swap (`fail_closed_failed_swap_counterexample`; replayed on the implementation on every run,
+harness signature `C09 failed-swap-drops-crl-lookup-reports-not-revoked`, listed in known_findings.json).
 -/
 
-/-- The part of C09 that holds: every storage failure that surfaces at a loaded repository entry denies the handshake. -/
+/-- The part of C09 that holds: every storage failure that surfaces at a repository entry denies the handshake. -/
 theorem fail_closed_partial (dec : Kind → Val → Bool) (d : Disk) (mode : Mode) (hm : crlEnabled mode = true)
     (gate : Bool) (es : List (Option Entry)) (i : List UInt8) (s : Int) (o : MechOut)
-    (h : ∃ e ∈ es, e = some { loaded := true, store := none } ∨
+    (h : ∃ e ∈ es, (∃ l st, e = some { loaded := l, store := st, closed := true }) ∨
+      e = some { loaded := true, store := none } ∨
       ∃ hd : Ldb, e = some { loaded := true, store := some (.ldb hd) } ∧
         ((∃ f, hd.fault = some f) ∨ hd.isOpen = false ∨ d.dirs hd.path = none ∨
           (∃ v, hd.dbGet d (hkey (key i s)) = .found v ∧ dec .entry v = false))) :
@@ -166,45 +264,15 @@ theorem fail_closed_partial (dec : Kind → Val → Bool) (d : Disk) (mode : Mod
   apply store_failure_rejects dec d mode hm gate es i s _ o
   obtain ⟨e, he, hcase⟩ := h
   refine ⟨e, he, ?_⟩
-  rcases hcase with rfl | ⟨hd, rfl, hf⟩
+  rcases hcase with ⟨l, st, rfl⟩ | rfl | ⟨hd, rfl, hf⟩
+  · exact closed_entry_is_error dec d l st i s
   · exact nil_store_is_error dec d i s
   · exact fault_classes_reach_error dec d hd i s hf
-
-/-- After `Repository.Close` every lookup answers "not revoked" — whatever was listed before. -/
-theorem after_repository_close_not_revoked (dec : Kind → Val → Bool) (i : List UInt8) (s : Int) :
-    ∀ (es : List (Option Entry)) (d d' : Disk) (es' : List (Option Entry)), repoClose d es = some (d', es') →
-      walk dec d' i s es' = .notRevoked
-  | [], d, d', es', h => by
-    simp only [repoClose, Option.some.injEq, Prod.mk.injEq] at h
-    obtain ⟨_, rfl⟩ := h
-    simp [walk, chkOf, Store.walkEnd]
-  | none :: _, _, _, _, h => by simp [repoClose] at h
-  | some e :: rest, d, d', es', h => by
-    simp only [repoClose] at h
-    cases hc : closeStore d e.store with
-    | none => simp [hc] at h
-    | some d1 =>
-      simp only [hc] at h
-      cases hr : repoClose d1 rest with
-      | none => simp [hr] at h
-      | some p =>
-        obtain ⟨d2, es2⟩ := p
-        simp only [hr, Option.some.injEq, Prod.mk.injEq] at h
-        obtain ⟨rfl, rfl⟩ := h
-        have := after_repository_close_not_revoked dec i s rest d1 d2 es2 hr
-        simp [walk, checkCrl, chkOf, Store.checkFallthrough, this]
 
 section Counterexamples
 def cxStore : MapStore := (MapStore.new.put (key [65] 5) [1, 2]).1
 def cxEntries : List (Option Entry) := [some { loaded := true, store := some (.map cxStore) }]
 def cxDec : Kind → Val → Bool := fun _ _ => true
-
-/-- Shutdown: a serial that was reported revoked is reported "not revoked" once `Repository.Close` ran. -/
-theorem fail_closed_shutdown_counterexample :
-    isRevoked cxDec Disk.empty false cxEntries [65] 5 = .revoked [1, 2] ∧
-    ∃ d' es', repoClose Disk.empty cxEntries = some (d', es') ∧
-      isRevoked cxDec d' false es' [65] 5 = .notRevoked := by
-  refine ⟨by decide, Disk.empty, [none], rfl, by decide⟩
 
 /-- Failed swap: the entry is dropped, the listed serial is reported "not revoked" (and the handshake accepted). -/
 theorem fail_closed_failed_swap_counterexample :
@@ -212,6 +280,11 @@ theorem fail_closed_failed_swap_counterexample :
     isRevoked cxDec Disk.empty false (failedSwap cxEntries 0) [65] 5 = .notRevoked ∧
     (verifyProg.run .crlOnly (envOf .good .good) true).verdict = .accept := by
   refine ⟨by decide, by decide, by decide⟩
+
+-- and shutdown on the same repository now fails closed:
+example : ∃ d' es', repoClose Disk.empty cxEntries = some (d', es') ∧
+    isRevoked cxDec d' false es' [65] 5 = .error :=
+  ⟨_, _, rfl, by decide⟩
 end Counterexamples
 
 -- Non-vacuity
